@@ -14,7 +14,8 @@ META = {
              "clamping; distinct by the whole case."
              ' Also: big-endian inputs, 64-bit integers next to float32 ro'
              'unding midpoints beyond 2^53; slices: narrowing conversions '
-             'as the slice converter applies them.'),
+             'as the slice converter applies them.'
+             " Round 12: results handed out earlier are compared again after the transformer converted further arrays of the same shape."),
     "trusted_base": ["vlib/refs/dtype_ref.py (Fraction arithmetic)"],
     "assumptions": ["finite values only; float64 values beyond the float32 "
                     "range are not offered to a float32 target"],
